@@ -221,3 +221,42 @@ def run(ctx):
                     bad = bad or "%s carries %s = %s instead of the caller's %s" % (mv[1], vamm_field, sym.show(got, 5), msg_field)
             ctx.inst("R17.5", "limit-forwarded:%s:%s" % (variant, what.replace(" ", "-")), bad is None and bool(em), a.fn.where(),
                      "%d emission(s) with id %d; %s" % (len(em), ident, bad or "limit is the message field unchanged"))
+
+    # ---- the branch that drops the caller's limit (the reversing SwapOutput carries limit 0 by design) must only be
+    # taken for a position that really exists: a stored zero-size position is a fresh open and keeps the limit
+    try:
+        a = arms.Arm(ix, ENG, "OpenPosition")
+        n_drop = 0
+        bad = None
+
+        def size_nonzero(fs):
+            for (at, o) in fs:
+                if tag(at) in ("call", "op") and str(payload(at)[0]).split("::")[-1] == "is_zero" and o is False and len(kids(at)) == 1:
+                    x = ix.inline(kids(at)[0])
+                    # Integer::is_zero(position.size) or Uint128::is_zero(position.size.value)
+                    if tag(x) == "field" and payload(x)[0] == "value":
+                        x = ix.inline(kids(x)[0])
+                    if tag(x) == "field" and payload(x)[0] == "size":
+                        return True
+            return False
+        for q in a.ok_paths():
+            drops = []
+            for s2 in model.path_submsgs(ix, q):
+                mv = ix.msg_variant(s2.inner_msg()) if s2.inner_msg() is not None else None
+                if not mv or not mv[0].endswith("margined_vamm::ExecuteMsg") or mv[1] not in ("SwapInput", "SwapOutput"):
+                    continue
+                lim = mv[2].get("base_asset_limit" if mv[1] == "SwapInput" else "quote_asset_limit")
+                if lim is None or a.s(lim) != a.msgfield("base_asset_limit"):
+                    drops.append(mv[1])
+            if not drops:
+                continue
+            n_drop += 1
+            if not guards.path_satisfies(ix, q, size_nonzero, a.m):
+                bad = bad or ("a success path can emit %s without the caller's base_asset_limit and nothing on it establishes that the stored position's size is "
+                              "non-zero: a position closed out by an offsetting OpenPosition stays stored with size 0 and its old direction, and the next "
+                              "opposite-side open takes this branch" % sorted(set(drops)))
+        ctx.inst("R17.5", "limit-dropped-only-for-live-position:OpenPosition", bad is None and n_drop > 0, a.fn.where(),
+                 bad or "%d success paths may emit a swap without the caller's limit (the reversal); each establishes position.size != 0 first" % n_drop)
+    except KeyError as e:
+        ctx.lost("R17.5", str(e))
+
